@@ -223,12 +223,12 @@ class StorageWorld(StorageBase):
         self.fs.open_for_write.discard(path)
         self.fs.volatile.pop(path, None)
 
-    def _after_fault(self, path, old_bytes, new_value, what):
+    def _after_fault(self, path, old_bytes, new_value, what, have_new=True):
         """Relaxed oracle: after an injected failure or crash the file is byte-equal to the old content, or to the
         new content, or does not parse (empty / prefix); never a third value."""
         got = self.fs.get(path)
         admissible = [old_bytes]
-        if new_value is not None:
+        if have_new:                       # note: None (JSON null) is a perfectly good new value
             nb = refcanon(new_value)
             admissible.append(nb)
         else:
